@@ -46,7 +46,20 @@ func (h *Sources) Save() {
 		line.pos = len(line.items)
 	}
 
-	line.items = line.items[:len(line.items)-line.pos]
+	// The first item is the initial state of the line: always keep it,
+	// so that undoing everything keeps leading back to this state.
+	keep := len(line.items) - line.pos
+	if keep < 1 && len(line.items) > 0 {
+		keep = 1
+	}
+
+	line.items = line.items[:keep]
+
+	// Which might be the current line as well.
+	if len(line.items) > 0 && line.items[len(line.items)-1].line == string(*h.line) {
+		line.items[len(line.items)-1].pos = h.cursor.Pos()
+		return
+	}
 
 	// Make a copy of the cursor and ensure its position.
 	cur := core.NewCursor(h.line)
